@@ -276,6 +276,9 @@ fn main() {
             let path = args.get(1).unwrap_or_else(|| usage());
             std::process::exit(props::replay(path));
         }
+        "c18-hugek" => {
+            std::process::exit(props::c18::huge_k_child());
+        }
         "c10-hugek" => {
             std::process::exit(props::c10::huge_k_child());
         }
